@@ -49,6 +49,7 @@ def run_case(case):
     N, C, a, b = case['N'], case['C'], case['a'], case['b']
     kind = cfg['kind']
     r.label(kind, cfg.get('mode'), 'N>=2,C>=2' if (N >= 2 and C >= 2) else None,
+            'separate_row_col_filters' if cfg.get('wave_row') else None,
             'nondefault_layout' if kind.startswith('dtcwt') and (cfg['o_dim'] % 6, cfg['ri_dim'] % 6) != (2, 5) else None,
             'J>=2' if cfg.get('J', 1) >= 2 else None)
     r.nontrivial = N >= 2 and C >= 2
